@@ -70,6 +70,8 @@ def _mk(o: int) -> None:
             return And(
                 Implies(fwd, And(n >= 0, le(s, at), le(at, e), Or(n == want, n == want - 1))),
                 Implies(Not(fwd), And(n <= 0, le(e, at), le(at, s), Or(n == want, n == want + 1))),
+                Implies(And(a.y1 == a.y2, a.m1 == a.m2, a.d1 == a.d2), n == 0),
+                Implies(n == 0, And(ay == a.y1, am == a.m1, ad == a.d1)),
             )
 
         c.returns(post)
